@@ -7,6 +7,8 @@ FIXED_EXTRA = [
  ('C07', 'sorts the selected parameters with a stable sort', 'CovariateModel.set_population_parameters orders the selected (parameter, dimension) pairs with an unstable sort: for 9 selected pairs (default selection of Heterogeneous(n_dim=3, n_ids=3)) the order is not the flattened order of the population parameters'),
  ('C15', 'returns one row per individual in eta', 'PopulationPredictiveModel.sample with a pooled sub-model fails (broadcast ValueError) whenever n_samples differs from the n_ids the population model was last configured with'),
  ('C15', 'tabulates covariates that are shared by all samples', 'PopulationPredictiveModel.sample(return_df=True) with one covariate row for n_samples > 1 raises "All arrays must be of the same length"'),
+ ('C03', 'hierarchical sensitivities of a composed population model nested', 'a ComposedPopulationModel nested in another one with a pooled or heterogeneous dimension: HierarchicalLogLikelihood.evaluateS1 raises "cannot reshape array" while __call__ is finite'),
+ ('C05', 'passes its number of individuals on to all sub-models', 'ComposedPopulationModel built from a HeterogeneousModel(n_ids=k) and a nested composed model: the nested model stays at one individual (set_n_ids(k) returns early) and compute_sensitivities(reduce=True) raises a broadcast ValueError'),
  ('C17', 'forwards set_n_ids to the population model it wraps', 'a CovariatePopulationModel used on its own (not inside a ComposedPopulationModel) in a HierarchicalLogLikelihood raises "cannot reshape array" for more than one individual'),
 ]
 OPEN = [
